@@ -96,6 +96,7 @@ type mctx struct {
 	c      *cg.Chain
 	st     *cg.Step
 	parent *chain.BlockSummary
+	view   *cg.PView
 	num    uint32
 	key    cg.Acct
 	r      *hx.Rand
@@ -195,8 +196,25 @@ func (m *mctx) mutants() []mutant {
 	if h.Timestamp()-cg.Interval > ph.Timestamp() {
 		add("previous-slot", 21, unknown, func(p *cg.Plan) { p.Time = h.Timestamp() - cg.Interval })
 	}
-	if !m.c.Spec.PoS {
+	if !m.view.PoS {
 		add("beneficiary-changed", 0, valid, func(p *cg.Plan) { p.Beneficiary = m.user().Addr })
+	} else {
+		// PoS: the header beneficiary is free unless the signer's validation has a contract-level beneficiary
+		bound := false
+		for _, cd := range m.view.Cands {
+			if cd.Addr == m.key.Addr && cd.Benef != nil {
+				bound = true
+			}
+		}
+		other := m.user().Addr
+		for other == h.Beneficiary() {
+			other = m.user().Addr
+		}
+		if bound {
+			add("pos-beneficiary-mismatch", 23, breaks, func(p *cg.Plan) { p.Beneficiary = other })
+		} else {
+			add("pos-beneficiary-free", 23, valid, func(p *cg.Plan) { p.Beneficiary = other })
+		}
 	}
 	// ---- body
 	out = append(out, mutant{name: "txs-root", rule: 30, kind: breaks, plan: m.base(), post: func(b *block.Block) *block.Block {
@@ -225,6 +243,14 @@ func (m *mctx) mutants() []mutant {
 	} else {
 		d := m.user()
 		withTx("tx-delegated", 37, valid, m.xfer(cg.TxOpt{Delegate: &d}))
+	}
+	{
+		base := m.c.MkTx(m.user(), []*tx.Clause{tx.NewClause(&m.c.Users[0].Addr).WithValue(big.NewInt(4))}, m.num, cg.TxOpt{})
+		if o, err := base.Origin(); err == nil {
+			if ur, err := cg.WithUnusedReserved(base, m.c.KeyOf(o)); err == nil {
+				withTx("tx-unused-reserved-field", 37, breaks, ur)
+			}
+		}
 	}
 	// ---- re-execution
 	dup := m.xfer(cg.TxOpt{})
@@ -294,7 +320,7 @@ func runChain(ctx *hx.Ctx, spec *cg.Spec, stop int, only string) {
 		if err != nil {
 			hx.Fatal("view: %v", err)
 		}
-		m := &mctx{c: c, st: st, parent: st.Parent, num: st.Block.Header().Number(), key: c.Masters[st.Proposer], r: c.R.Fork(uint64(hgt))}
+		m := &mctx{c: c, st: st, parent: st.Parent, view: view, num: st.Block.Header().Number(), key: c.Masters[st.Proposer], r: c.R.Fork(uint64(hgt))}
 		// the identity plan must reproduce the packer's block (validates the mutant builder itself)
 		if rb, _, err := c.Build(st.Parent, m.base()); err != nil || rb.Header().ID() != st.Block.Header().ID() {
 			hx.Fatal("the block re-builder does not reproduce the packer's block at #%d (%v): generator broken", hgt, err)
@@ -321,6 +347,11 @@ func runChain(ctx *hx.Ctx, spec *cg.Spec, stop int, only string) {
 				before := digest(c, id)
 				class, msg := process(c.Cold(), st.Parent, blk, now)
 				after := digest(c, id)
+				// the validator that has followed the whole chain (warm candidate / leader cache) must agree with the cold one
+				if wclass, wmsg := process(c.Warm, st.Parent, blk, now); wclass != class {
+					fail("validators-disagree:"+mu.name, fmt.Sprintf("mutant %q of block #%d: cold validator says %s (%s), the warm one %s (%s)", mu.name, hgt, class, msg, wclass, wmsg), hgt, mu.name, true)
+					return
+				}
 				canon, _ := json.Marshal(Replay{spec, hgt, mu.name})
 				ctx.Cov.Case(string(canon), mu.kind == breaks, nil)
 				ctx.Cov.Count(fmt.Sprintf("mutant:%s:%s", mu.name, class))
@@ -403,6 +434,10 @@ func runChain(ctx *hx.Ctx, spec *cg.Spec, stop int, only string) {
 					ctx.Cov.Count("garbage:accepted-different-id")
 				}
 			}
+		}
+		if wclass, wmsg := process(c.Warm, st.Parent, st.Block, st.Block.Header().Timestamp()); wclass != "accept" {
+			fail("warm-validator-rejects-valid-block", fmt.Sprintf("the warm validator rejects the packer's block #%d: %s (%s)", hgt, wclass, wmsg), hgt, "", true)
+			return
 		}
 		if err := c.Commit(st, true); err != nil {
 			hx.Fatal("commit: %v", err)
@@ -487,7 +522,7 @@ func main() {
 		}
 	}
 	r := hx.NewRand(ctx.Seed)
-	n := ctx.Scale(40, 1000)
+	n := ctx.Scale(110, 1500)
 	for i := 0; i < n && len(ctx.Violations) == 0; i++ {
 		runChain(ctx, cg.GenSpec(r.Fork(uint64(i)), 12), 0, "")
 	}
